@@ -61,6 +61,11 @@ FORBIDDEN_HOSTNAME_CHARS = frozenset('#%/:?@[\\] ')
 Does not include non-printing characters. Meant for ASCII.
 '''
 
+IPV6_LITERAL_CHARS = frozenset(
+    string.ascii_letters + string.digits + ':.%-_~'
+)
+'''Characters of an IPv6 address and its zone identifier (RFC 6874).'''
+
 
 class URLInfo(object):
     '''Represent parts of a URL.
@@ -293,7 +298,7 @@ class URLInfo(object):
 
         address = hostname[1:-1]
 
-        if '[' in address or ']' in address:
+        if not all(char in IPV6_LITERAL_CHARS for char in address):
             # ipaddress accepts any text as the zone identifier
             raise ValueError('Invalid IPv6 address: {}'
                              .format(ascii(hostname)))
